@@ -96,6 +96,17 @@ def run(run: Run):
     for i in bad:
         name, rp = meta[i]
         run.violation(f"generator bytes differ from the documented derivation ({name})", rp)
+    # (4b) every way of walking the public generator accessors hands out the same points as a plain collect(): positioned access (nth, skip,
+    # step_by, by_ref + take, last, count) on fresh and on partially consumed iterators, across party boundaries
+    shapes = [(1, 4), (2, 2), (4, 2), (4, 4), (8, 2), (64, 2), (16, 8)] if quick else [(b, c) for b in (1, 2, 4, 8, 16, 32, 64) for c in (1, 2, 4, 8, 16, 32)]
+    for r in run_harness(["gens"], [{"op": "iter_api", "bits": b, "cap": c} for (b, c) in shapes], jobs=4):
+        run.count(["iter_api", r.get("bits"), r.get("cap")], {"check": "iterator API of gi_base_iter / hi_base_iter vs collect()", "bits": r.get("bits"), "capacity": r.get("cap")})
+        run.bump("iterator-API shapes")
+        if r.get("error") or r.get("mismatches"):
+            mm = (r.get("mismatches") or [{}])[0]
+            run.violation(f"the generator accessor of the ({r.get('bits')}, {r.get('cap')}) parameter set hands out a different point through {mm.get('api')} "
+                          f"(vector {mm.get('vector')}, after consuming {mm.get('consumed')}, argument {mm.get('k')}) than through collect()",
+                          {"kind": "gens", "spec": {"op": "iter_api", "bits": r.get("bits"), "cap": r.get("cap")}, "observed": (r.get("mismatches") or [])[:8]})
     # (5) concurrent first use and concurrent construction (fresh processes)
     nproc = 6 if quick else 40
     thr = run_harness(["gens"], [{"op": "threads", "race_first_use": True, "degrees": rng.sample([1, 2, 3, 4, 5, 6], 6)} for _ in range(nproc)], jobs=nproc)
@@ -107,7 +118,7 @@ def run(run: Run):
     return run.finish(
         "proof",
         "all 4103 points of (64, 32, T=6) [every smaller parameter set is checked to be a prefix view of it, in two construction orders]: recorded digest, pairwise distinctness, "
-        "non-identity; compressed accessors; precomputed tables read out point by point vs the interleaving model; byte equality of chains (quick: parties 0-3, thorough: all 32) and of the "
+        "non-identity; compressed accessors; iterator API of the accessors (nth / skip / step_by / by_ref on partially consumed iterators) vs collect(); precomputed tables read out point by point vs the interleaving model; byte equality of chains (quick: parties 0-3, thorough: all 32) and of the "
         "seven Pedersen points with the Gallina SHAKE256 / SHA3-512 / Ristretto derivation; fresh processes racing the first use from 16 threads; distinct by (kind of check, object / chain)",
         ["the (64, 32) domain covers every parameter set the constructors admit up to capacity 32"],
         TRUSTED, extra={"exhaustive": not quick})
